@@ -81,6 +81,9 @@ def fclient_request_FederationRequest_Sign : List String := [
   "return fmt.Errorf(\"gomatrixserverlib: the request is already signed by a different server\")",
   "}",
   "r.fields.Origin = serverName",
+  "if err := r.checkFieldsUTF8(); err != nil {",
+  "return err",
+  "}",
   "data, err := json.Marshal(r.fields)",
   "if err != nil {",
   "return err",
@@ -90,6 +93,16 @@ def fclient_request_FederationRequest_Sign : List String := [
   "return err",
   "}",
   "return json.Unmarshal(signedData, &r.fields)"
+]
+
+def fclient_request_FederationRequest_checkFieldsUTF8 : List String := [
+  "func func() error",
+  "for _, field := range []string{r.fields.Method, r.fields.RequestURI, string(r.fields.Origin), string(r.fields.Destination)} {",
+  "if !utf8.ValidString(field) {",
+  "return fmt.Errorf(\"gomatrixserverlib: the request method, URI, origin and destination must be valid UTF-8, not %q\", field)",
+  "}",
+  "}",
+  "return nil"
 ]
 
 def fclient_request__NewFederationRequest : List String := [
@@ -213,6 +226,9 @@ def fclient_request__readHTTPRequest : List String := [
   "var result FederationRequest",
   "result.fields.Method = req.Method",
   "result.fields.RequestURI = req.URL.RequestURI()",
+  "if err := result.checkFieldsUTF8(); err != nil {",
+  "return nil, err",
+  "}",
   "content, err := io.ReadAll(req.Body)",
   "if err != nil {",
   "return nil, err",
@@ -243,6 +259,9 @@ def fclient_request__readHTTPRequest : List String := [
   "}",
   "result.fields.Origin = origin",
   "result.fields.Destination = destination",
+  "if err := result.checkFieldsUTF8(); err != nil {",
+  "return nil, err",
+  "}",
   "if result.fields.Signatures == nil {",
   "result.fields.Signatures = map[spec.ServerName]map[gomatrixserverlib.KeyID]string{origin: {key: sig}}",
   "} else {",
@@ -581,11 +600,11 @@ def keyring__StrictValiditySignatureCheck : List String := [
   "return false",
   "}",
   "sevenDaysFuture := time.Now().Add(time.Hour * 24 * 7)",
-  "validUntilTS := validUntil.Time()",
-  "if validUntilTS.After(sevenDaysFuture) {",
-  "validUntilTS = sevenDaysFuture",
+  "validUntilTS := validUntil",
+  "if sevenDaysFutureTS := spec.AsTimestamp(sevenDaysFuture); validUntilTS > sevenDaysFutureTS {",
+  "validUntilTS = sevenDaysFutureTS",
   "}",
-  "if atTs.Time().After(validUntilTS) {",
+  "if atTs > validUntilTS {",
   "return false",
   "}",
   "return true"
@@ -618,7 +637,7 @@ def keys_ServerKeys_PublicKey : List String := [
   "if currentKey, ok := keys.VerifyKeys[keyID]; ok && (atTS <= keys.ValidUntilTS) {",
   "return currentKey.Key",
   "}",
-  "if oldKey, ok := keys.OldVerifyKeys[keyID]; ok && (atTS <= oldKey.ExpiredTS) {",
+  "if oldKey, ok := keys.OldVerifyKeys[keyID]; ok && (atTS < oldKey.ExpiredTS) {",
   "return oldKey.Key",
   "}",
   "return nil"
@@ -694,6 +713,9 @@ def signing__ListKeyIDs : List String := [
 def signing__SignJSON : List String := [
   "func func(signingName string, keyID KeyID, privateKey ed25519.PrivateKey, message []byte) (signed []byte, err error)",
   "preserve := struct { Signatures map[string]map[KeyID]spec.Base64Bytes `json:\"signatures\"` Unsigned spec.RawJSON `json:\"unsigned\"` }{Signatures: map[string]map[KeyID]spec.Base64Bytes{}}",
+  "if err = checkStrictJSON(message, false); err != nil {",
+  "return nil, err",
+  "}",
   "var object map[string]json.RawMessage",
   "if err = json.Unmarshal(message, &object); err != nil {",
   "return nil, err",
@@ -745,6 +767,9 @@ def signing__VerifyJSON : List String := [
   "func func(signingName string, keyID KeyID, publicKey ed25519.PublicKey, message []byte) error",
   "var object map[string]*json.RawMessage",
   "var signatures map[string]map[KeyID]spec.Base64Bytes",
+  "if err := checkStrictJSON(message, true); err != nil {",
+  "return err",
+  "}",
   "if err := json.Unmarshal(message, &object); err != nil {",
   "return err",
   "}",
@@ -778,6 +803,54 @@ def signing__VerifyJSON : List String := [
   "return fmt.Errorf(\"Bad signature from %q with ID %q\", signingName, keyID)",
   "}",
   "return nil"
+]
+
+def signing__checkStrictJSON : List String := [
+  "func func(message []byte, requireUTF8 bool) error",
+  "if !gjson.ValidBytes(message) {",
+  "return fmt.Errorf(\"gomatrixserverlib: invalid JSON\")",
+  "}",
+  "return checkStrictValue(gjson.ParseBytes(message), requireUTF8)"
+]
+
+def signing__checkStrictString : List String := [
+  "func func(raw string, requireUTF8 bool) error",
+  "if requireUTF8 && !utf8.ValidString(raw) {",
+  "return fmt.Errorf(\"gomatrixserverlib: JSON string is not valid UTF-8\")",
+  "}",
+  "for i := 0; i+1 < len(raw); i++ {",
+  "if raw[i] != '\\\\' {",
+  "continue",
+  "}",
+  "i++",
+  "if raw[i] != 'u' || i+4 >= len(raw) {",
+  "continue",
+  "}",
+  "high := readHexDigits([]byte(raw[i+1 : i+5]))",
+  "i += 4",
+  "if !utf16.IsSurrogate(high) {",
+  "continue",
+  "}",
+  "if i+6 >= len(raw) || raw[i+1] != '\\\\' || raw[i+2] != 'u' || utf16.DecodeRune(high, readHexDigits([]byte(raw[i+3:i+7]))) == utf8.RuneError {",
+  "return fmt.Errorf(\"gomatrixserverlib: JSON string has an unpaired surrogate escape\")",
+  "}",
+  "i += 6",
+  "}",
+  "return nil"
+]
+
+def signing__checkStrictValue : List String := [
+  "func func(value gjson.Result, requireUTF8 bool) (err error)",
+  "switch {",
+  "case value.Type == gjson.String:",
+  "return checkStrictString(value.Raw, requireUTF8)",
+  "case value.IsObject():",
+  "names := make(map[string]struct{})",
+  "value.ForEach(func(name, member gjson.Result) bool { if err = checkStrictString(name.Raw, requireUTF8); err != nil { return false } if _, duplicate := names[name.Str]; duplicate { err = fmt.Errorf(\"gomatrixserverlib: duplicate object member %q\", name.Str) return false } names[name.Str] = struct{}{} err = checkStrictValue(member, requireUTF8) return err == nil })",
+  "case value.IsArray():",
+  "value.ForEach(func(_, element gjson.Result) bool { err = checkStrictValue(element, requireUTF8) return err == nil })",
+  "}",
+  "return err"
 ]
 
 def spec_servername__ParseAndValidateServerName : List String := [
@@ -846,6 +919,6 @@ def spec_servername__splitServerName : List String := [
   "return nameStr[:lastColon], int(port)"
 ]
 
-def functions : List String := ["fclient/request.go:FederationRequest.Content", "fclient/request.go:FederationRequest.Destination", "fclient/request.go:FederationRequest.HTTPRequest", "fclient/request.go:FederationRequest.Method", "fclient/request.go:FederationRequest.Origin", "fclient/request.go:FederationRequest.RequestURI", "fclient/request.go:FederationRequest.SetContent", "fclient/request.go:FederationRequest.Sign", "fclient/request.go:.NewFederationRequest", "fclient/request.go:.ParseAuthorization", "fclient/request.go:.VerifyHTTPRequest", "fclient/request.go:.isSafeInHTTPQuotedString", "fclient/request.go:.readHTTPRequest", "keyring.go:DirectKeyFetcher.FetchKeys", "keyring.go:DirectKeyFetcher.FetcherName", "keyring.go:DirectKeyFetcher.fetchKeysForServer", "keyring.go:DirectKeyFetcher.fetchNotaryKeysForServer", "keyring.go:JSONVerifierSelf.VerifyJSONs", "keyring.go:KeyRing.VerifyJSONs", "keyring.go:KeyRing.checkUsingKeys", "keyring.go:KeyRing.isAlgorithmSupported", "keyring.go:KeyRing.publicKeyRequests", "keyring.go:PerspectiveKeyFetcher.FetchKeys", "keyring.go:PerspectiveKeyFetcher.FetcherName", "keyring.go:PublicKeyLookupRequest.MarshalText", "keyring.go:PublicKeyLookupRequest.UnmarshalText", "keyring.go:PublicKeyLookupResult.WasValidAt", "keyring.go:.NoStrictValidityCheck", "keyring.go:.StrictValiditySignatureCheck", "keyring.go:.mapServerKeysToPublicKeyLookupResult", "keys.go:ServerKeys.MarshalJSON", "keys.go:ServerKeys.PublicKey", "keys.go:ServerKeys.UnmarshalJSON", "keys.go:.CheckKeys", "keys.go:.checkVerifyKeys", "signing.go:.ListKeyIDs", "signing.go:.SignJSON", "signing.go:.VerifyJSON", "spec/servername.go:.ParseAndValidateServerName", "spec/servername.go:.isDNSNameChar", "spec/servername.go:.splitServerName"]
+def functions : List String := ["fclient/request.go:FederationRequest.Content", "fclient/request.go:FederationRequest.Destination", "fclient/request.go:FederationRequest.HTTPRequest", "fclient/request.go:FederationRequest.Method", "fclient/request.go:FederationRequest.Origin", "fclient/request.go:FederationRequest.RequestURI", "fclient/request.go:FederationRequest.SetContent", "fclient/request.go:FederationRequest.Sign", "fclient/request.go:FederationRequest.checkFieldsUTF8", "fclient/request.go:.NewFederationRequest", "fclient/request.go:.ParseAuthorization", "fclient/request.go:.VerifyHTTPRequest", "fclient/request.go:.isSafeInHTTPQuotedString", "fclient/request.go:.readHTTPRequest", "keyring.go:DirectKeyFetcher.FetchKeys", "keyring.go:DirectKeyFetcher.FetcherName", "keyring.go:DirectKeyFetcher.fetchKeysForServer", "keyring.go:DirectKeyFetcher.fetchNotaryKeysForServer", "keyring.go:JSONVerifierSelf.VerifyJSONs", "keyring.go:KeyRing.VerifyJSONs", "keyring.go:KeyRing.checkUsingKeys", "keyring.go:KeyRing.isAlgorithmSupported", "keyring.go:KeyRing.publicKeyRequests", "keyring.go:PerspectiveKeyFetcher.FetchKeys", "keyring.go:PerspectiveKeyFetcher.FetcherName", "keyring.go:PublicKeyLookupRequest.MarshalText", "keyring.go:PublicKeyLookupRequest.UnmarshalText", "keyring.go:PublicKeyLookupResult.WasValidAt", "keyring.go:.NoStrictValidityCheck", "keyring.go:.StrictValiditySignatureCheck", "keyring.go:.mapServerKeysToPublicKeyLookupResult", "keys.go:ServerKeys.MarshalJSON", "keys.go:ServerKeys.PublicKey", "keys.go:ServerKeys.UnmarshalJSON", "keys.go:.CheckKeys", "keys.go:.checkVerifyKeys", "signing.go:.ListKeyIDs", "signing.go:.SignJSON", "signing.go:.VerifyJSON", "signing.go:.checkStrictJSON", "signing.go:.checkStrictString", "signing.go:.checkStrictValue", "spec/servername.go:.ParseAndValidateServerName", "spec/servername.go:.isDNSNameChar", "spec/servername.go:.splitServerName"]
 
 end VPins.C13
